@@ -43,7 +43,7 @@ def main(tier):
     build("prod")
     arena = workdir("c16")
     # root-level witnesses: an absolute member name must not appear at the file-system root
-    root_watch = ["/a", "/b", "/zz", "/..a", "/...", "/" + PART["uni"], "/a\\..\\b", "/" + PART["LONG"]]
+    root_watch = ["/a", "/b", "/zz", "/out2", "/..a", "/...", "/" + PART["uni"], "/a\\..\\b", "/" + PART["LONG"]]
     root_before = {p: os.path.lexists(p) for p in root_watch}
     jobs = []
     plans = []
@@ -54,7 +54,9 @@ def main(tier):
         open(os.path.join(arena, f"s{i}", "l1", "outer-sentinel.txt"), "w").write("outer")
         if i % 2 == 0:
             os.makedirs(os.path.join(sb, "out"))       # pre-existing output directory in half of the cases
-        members = [dict(name=name_str(n), content=f"content-{i}-{j}-" + "z" * (j * 37)) for j, n in enumerate(b["names"])]
+        # (one member in three is an empty file: it must still be created)
+        members = [dict(name=name_str(n), content="" if (i + j) % 3 == 0 else f"content-{i}-{j}-" + "z" * (j * 37))
+                   for j, n in enumerate(b["names"])]
         jobs.append(dict(path=os.path.join(sb, "a.mla"), layers="compress" if i % 3 == 0 else "none", members=members))
         plans.append((sb, b, members))
     jp = os.path.join(arena, "jobs.jsonl")
